@@ -69,7 +69,7 @@ CHECKS = {
              'SignalsCollection.update with symbolic entry/update instants; once-per-close cadence on the real session loop; buffer-key injectivity by CrossHair (bounded) and cvc5 (unbounded).',
         design='3/C16, 8', technique=SYMX + '; CrossHair 0.0.110 and cvc5 (QF_SLIA) for the string kernel'),
     'C17': dict(
-        text='The real statistics pipeline (performance.py, tearsheet get_results, JSONStatistics) on an object-dtype equity column of z3 proxies, curve length <=4 (thorough 6) over week/month/year boundaries: returns, cumulative '
+        text='The real statistics pipeline (performance.py, tearsheet get_results, JSONStatistics) on an object-dtype equity column of z3 proxies, curve length <=4 (thorough 5) over week/month/year boundaries: returns, cumulative '
              'returns, period aggregates, drawdowns, max drawdown, duration, CAGR, Sharpe, Sortino equal their definitions; tearsheet = JSON; scaled curves satisfy the same k-free definitions.',
         design='3/C17, 8', technique=SYMX + '; exact log-domain algebra, uninterpreted sqrt/pow'),
     'C18': dict(
